@@ -122,7 +122,11 @@ func (r Promise[T]) dispatchOrAddCallback(cb onCompleteFunc[T]) {
 		return
 
 	case []onCompleteFunc[T]:
-		if r.status.CompareAndSwap(ap, append(status, cb)) {
+		// the published list is shared with racing goroutines: never append in place
+		ns := make([]onCompleteFunc[T], len(status)+1)
+		copy(ns, status)
+		ns[len(status)] = cb
+		if r.status.CompareAndSwap(ap, ns) {
 			return
 		}
 		r.dispatchOrAddCallback(cb)
